@@ -39,7 +39,8 @@ THEOREMS = ["seqPlace_sound", "randPlace_sound", "saPlace_initial_sound", "seqPl
             "seqPlace_complete_unit", "validPlacement_iff",
             "saStep_inv", "saRun_inv", "saStart_inv", "saPlace_sound",
             "seqPlace_documented", "randPlace_documented", "saPlace_initial_documented",
-            "randPlace_complete_unit", "saPlace_initial_complete_unit"]
+            "randPlace_complete_unit", "saPlace_initial_complete_unit",
+            "hilbert_curve_exact", "hilbert_covers", "hilbertPlace_complete_unit"]
 
 RULE = ("problems: 0-40 vertices (0-3 units of 1-3 resources, some needing nothing), random nets, machines 1x1..10x10 "
         "with dead chips and per-chip resource exceptions sized so that packing is tight, location constraints (also on "
@@ -439,7 +440,8 @@ def run_placers(prob):
             ok_vo = vo is None or all(isinstance(v, int) for v in vo)
             if ok_vo:
                 req = dict(base, op="seq", vo=vo, co=None if co_ is None else nonneg_chips(co_))
-        add(name, out, req, captured=len(cap))
+        add(name, out, req, captured=len(cap),
+            chip_order=(cap[0][1] if (name == "hilbert" and len(cap) == 1) else None))
 
     # random placer
     vr, nets, machine, cs = build(prob)
@@ -608,6 +610,9 @@ def eval_problems(ctx, probs):
             if r["req"] is not None:
                 reqs.append(dict(r["req"], suite="c02"))
                 slots.append((r, "model"))
+            if r.get("chip_order") is not None:
+                reqs.append(dict(base, suite="c02", op="hilbert", level=None))
+                slots.append((r, "hil"))
             if "ok" in r["impl"]:
                 enc = enc_placement(r["impl"]["ok"])
                 r["enc"] = enc
@@ -662,6 +667,11 @@ def eval_problems(ctx, probs):
                                   "no same-chip groups, fixed vertices fit and the capacity suffices" % (name, impl["err"]),
                                   case)
             # --- correspondence with the model
+            if r.get("chip_order") is not None:
+                ctx.traces += 1
+                if [list(c) for c in r["chip_order"]] != r["hil"].get("order"):
+                    ctx.mismatch("c02.hilbert-order", "chip order handed to sequential_place: %r..., model: %r..." % (
+                        r["chip_order"][:8], str(r["hil"])[:100]), case)
             if r["req"] is not None:
                 model = r["model"]
                 if name == "sa-python":
@@ -700,8 +710,53 @@ def eval_problems(ctx, probs):
         ctx.case(desc, nontriv)
 
 
+def hilbert_checks(ctx):
+    """correspondence of hilbert.py's generator / level computation with the Lean model (the object of
+    the coverage theorems): `hilbert(level)` for levels 0..8, the level chosen for every machine size up to
+    256, the chip order handed to the sequential placer for a range of machine shapes"""
+    from rig.place_and_route.place.hilbert import hilbert, hilbert_chip_order
+    from rig.place_and_route import Machine
+    base = {"suite": "c02", "vr": [], "cs": [], "w": 1, "h": 1, "res": [], "exc": [], "dead": []}
+    reqs, exp = [], []
+    for level in range(0, 9):
+        reqs.append(dict(base, op="hilbert", level=level))
+        exp.append(("hilbert(%d)" % level, [list(q) for q in hilbert(level)]))
+    for d in range(0, 257):
+        for w, h in ((d, 1), (1, d), (d, d)):
+            it = hilbert_chip_order(Machine(w, h))
+            first = list(zip(range(3), it))      # the generator is lazy: only its first points are drawn
+            n = sum(1 for _ in it) + len(first) if d <= 16 else None
+            reqs.append(dict(base, op="hilbert_level", w=w, h=h))
+            exp.append(("level(%d,%d)" % (w, h), None if n is None else n))
+    shapes = [(w, h) for w in range(0, 10) for h in range(0, 10)] + [(16, 3), (17, 2), (5, 31), (32, 32), (33, 1)]
+    for w, h in shapes:
+        reqs.append(dict(base, op="hilbert", level=None, w=w, h=h))
+        exp.append(("order(%d,%d)" % (w, h), [list(q) for q in hilbert_chip_order(Machine(w, h))]))
+    replies = ctx.lean(reqs)
+    import math
+    for (name, want), req, got in zip(exp, reqs, replies):
+        ctx.traces += 1
+        if name.startswith("level"):
+            md = max(req["w"], req["h"])
+            lv = int(math.ceil(math.log(md, 2.0))) if md >= 1 else 0     # the expression of hilbert_chip_order
+            if want is not None and want != 4 ** lv:
+                ctx.mismatch("c02.hilbert-level", "%s: hilbert_chip_order yields %d points, level %d expected"
+                             % (name, want, lv), {"hilbert": name})
+            if got != lv:
+                ctx.mismatch("c02.hilbert-level", "%s: impl level %r, model %r" % (name, lv, got), {"hilbert": name})
+        elif name.startswith("order"):
+            if got.get("order") != want:
+                ctx.mismatch("c02.hilbert-order", "%s: impl %r... model %r..." % (name, want[:6], str(got)[:80]),
+                             {"hilbert": name})
+        elif got != want:
+            ctx.mismatch("c02.hilbert-curve", "%s: impl %r... model %r..." % (name, want[:6], got[:6]),
+                         {"hilbert": name})
+    ctx.tag("hilbert-generator-checked")
+
+
 def run(ctx):
     ctx.extra["rule"] = RULE
+    hilbert_checks(ctx)
     ctx.extra["trusted_base"] = ["rig_c_sa (compiled annealing kernel outside /repo): opaque, checked only by the Feasible oracle",
                                  "the annealer's float cost/temperature arithmetic is abstracted to the recorded accept decision"]
     ctx.assumptions += [
